@@ -46,8 +46,8 @@ CHECKS = {
              "fact, success False iff abnormal, nit/nfev budgets, stop-criterion callables invoked once) proved at every "
              "return from a loop invariant, for all iteration counts and all 288 combinations of checkpoint / ftarget "
              "kind / gtol kind / gradient mode / scaler / update function / callback.",
-             "DESIGN.md 9 C04", "callee contracts (line_search budget proved in unit LS); known finding KF1 (FD mode + "
-             "degenerate bound -> NaN gradient) is outside A-NAN and reported by the bounded stand-in.",
+             "DESIGN.md 9 C04", "callee contracts (line_search budget proved in unit LS); NaN values are outside the proofs (A-NAN) "
+             "and only seen by the bounded stand-in.",
              T + "ensures + loop invariant on the real main loop, UF domain, z3"),
     "C05": E("proof",
              "Bit-for-bit coherence (equality of terms in the UF domain) of (x, fun, jac) and counter/ghost-call equality "
@@ -131,7 +131,7 @@ CHECKS = {
              "Proved: the precondition of approx_derivative (feasible base point, else ValueError) holds at its only call "
              "site on every path (requires of ScalarFunction.grad/fun_and_grad at each call site, from np.clip's axioms); "
              "mode dispatch and stencil counting (unit SF). Bounded: accuracy against exact-gradient solutions.",
-             "DESIGN.md 9 C16", "assumed contract of approx_derivative; known finding KF1 (degenerate side -> NaN).",
+             "DESIGN.md 9 C16", "assumed contract of approx_derivative.",
              T + "call-site preconditions (z3) + class invariant; bounded stand-in for the accuracy clause"),
     "C17": E("proof",
              "Obligations on the real code: scaler invoked exactly once with (start point, unscaled gradient, bounds); "
